@@ -13,7 +13,7 @@ func c11Svc(extra map[string]any) map[string]any {
 }
 
 func VerifC11Defaults() {
-	scen := vrtChoice("scenario", 14)
+	scen := vrtChoice("scenario", 15)
 	v := "x" + vrtString("v", vrtParam("VL", 1), "ab")
 	other := map[string]any{"image": "i"}
 	data := map[string]any{"image": "i"}
@@ -80,8 +80,19 @@ func VerifC11Defaults() {
 			extra["network_mode"] = "service:data"
 			dep["restart"] = true
 		case 3:
-			extra[[]string{"ipc", "pid"}[vrtChoice("ns", 2)]] = "service:data"
+			extra[[]string{"ipc", "pid", "uts"}[vrtChoice("ns", 3)]] = "service:data"
 			dep["restart"] = true
+		}
+		// the other namespace attributes next to it: absent, a plain value, or null (the schema lets `pid` be null)
+		switch vrtChoice("otherNamespace", 3) {
+		case 1:
+			if _, has := extra["pid"]; !has {
+				extra["pid"] = nil
+			}
+		case 2:
+			if _, has := extra["ipc"]; !has {
+				extra["ipc"] = "host"
+			}
 		}
 		implicit = mk(c11Svc(extra), nil)
 		ex := map[string]any{}
@@ -216,6 +227,40 @@ func VerifC11Defaults() {
 			vrtAssert("external-false-is-not-external", !ext)
 		}
 		return
+	case 14: // port defaults next to every other port attribute
+		extraAttr := []string{"", "app_protocol", "name", "host_ip", "published"}[vrtChoice("portAttr", 5)]
+		port := func(explicitDefaults bool) map[string]any {
+			o := map[string]any{"target": 80}
+			switch extraAttr {
+			case "app_protocol":
+				o["app_protocol"] = "http"
+			case "name":
+				o["name"] = "web"
+			case "host_ip":
+				o["host_ip"] = "127.0.0.1"
+			case "published":
+				o["published"] = "8080"
+			}
+			if explicitDefaults {
+				o["protocol"] = "tcp"
+				o["mode"] = "ingress"
+			}
+			return o
+		}
+		implicit = mk(c11Svc(map[string]any{"ports": []any{port(false)}}), nil)
+		explicit = mk(c11Svc(map[string]any{"ports": []any{port(true)}}), nil)
+		d := port(true)
+		d["protocol"] = "udp"
+		d["mode"] = "host"
+		different = mk(c11Svc(map[string]any{"ports": []any{d}}), nil)
+		diffCheck = func(m map[string]any) bool {
+			l, _ := tcSvc(m, "s")["ports"].([]any)
+			if len(l) != 1 {
+				return false
+			}
+			o, _ := l[0].(map[string]any)
+			return o["protocol"] == any("udp") && o["mode"] == any("host")
+		}
 	case 11: // short depends_on list
 		implicit = mk(c11Svc(map[string]any{"depends_on": []any{"o", "data"}}), nil)
 		explicit = mk(c11Svc(map[string]any{"depends_on": map[string]any{"o": map[string]any{"condition": "service_started", "required": true}, "data": map[string]any{"condition": "service_started", "required": true}}}), nil)
